@@ -90,6 +90,22 @@ def stress_api(r, idx):
                                    {"selector": "google.cloud.location.Locations.ListLocations", "get": "/v1/{name=projects/*}/locations"},
                                    {"selector": "google.iam.v1.IAMPolicy.GetIamPolicy", "post": "/v1/{resource=projects/*}:getIamPolicy", "body": "*"}]}}
         feats.append("mixins")
+    api.extra_targets = []
+    if idx % 3 != 2:
+        # several proto sub-packages of the API package (the generator walks them when it emits the %sub templates)
+        names = r.sample(["catalog", "lending", "admin", "billing", "search", "audit", "zeta", "alpha"], r.randint(2, 5))
+        first = main.proto.message_type[0]
+        for n, sub in enumerate(names):
+            sf = File(f"{api.dir}/{sub}/{sub}.proto", f"{api.package}.{sub}", deps=list(apigen.STD_DEPS))
+            sm = sf.message(sub.capitalize() + "Note"); sm.field("text", 1, "string")
+            sq = sf.message("Get" + sub.capitalize() + "NoteRequest"); sq.field("name", 1, "string")
+            if n % 2 == 0:
+                ss = sf.service(sub.capitalize() + "Service", host=api.host)
+                ss.rpc("Get" + sub.capitalize() + "Note", sq.fqn, sm.fqn, http=("get", "/v1/{name=%sNotes/*}" % sub), sigs=["name"])
+            main.dep(sf.proto.name)
+            f = first.field.add(); f.name, f.number, f.label, f.type, f.type_name = f"{sub}_note", 140 + n, 1, 11, sm.fqn
+            api.extra_targets.append(sf)
+        feats.append("several-sub-packages")
     api.extra_deps = []
     if idx % 2 == 0:
         # field types from several separately published packages (the setup.py / constraints dependency lists)
@@ -182,7 +198,8 @@ def run_sweep(ctx, n, seeds):
         r = env.rng("C10-api", i)
         try:
             api, feats, retry, yaml = stress_api(r, i)
-            req = api.request("transport=" + ["grpc+rest", "grpc", "rest"][i % 3] + (",metadata" if i % 2 else ""), extra_files=api.extra_deps)
+            req = api.request("transport=" + ["grpc+rest", "grpc", "rest"][i % 3] + (",metadata" if i % 2 else ""), extra_files=api.extra_deps + api.extra_targets,
+                              to_generate=[f.proto.name for f in api.files + api.extra_targets])
         except apigen.Invalid:
             ctx.features["invalid-candidate"] += 1
             continue
@@ -259,8 +276,8 @@ def run_pure(ctx):
 
 def run(ctx):
     ctx.notes["clock_shim"] = CLOCK_SHIM
-    run_pure(ctx)
-    run_sweep(ctx, ctx.n(6, 60), SEEDS_QUICK if ctx.quick() else SEEDS_THOROUGH)
+    ctx.stage("pure T2", run_pure, ctx)
+    ctx.stage("sweep", run_sweep, ctx, ctx.n(6, 60), SEEDS_QUICK if ctx.quick() else SEEDS_THOROUGH)
 
 
 def replay(ctx, rep):
